@@ -28,3 +28,15 @@ def WfTwoPlanned(x: int, tag: str = "") -> int:
     b = workflow.add(Planned(x=x + 1, tag=tag), name="b")
     c = workflow.add(Mul(x=a.out, y=b.out), name="c")
     return c.out
+
+
+@workflow.define
+def Par2(x: int) -> int:
+    """two independent nodes and a join: a=Add(x,1), b=Add(x+1,1), c=Mul(a.out,b.out)"""
+    from .workload import Mul
+
+    _rt.get().event("wf-body", f"Par2|{x!r}")
+    a = workflow.add(Add(x=x, k=1), name="a")
+    b = workflow.add(Add(x=x + 1, k=1), name="b")
+    c = workflow.add(Mul(x=a.out, y=b.out), name="c")
+    return c.out
